@@ -318,10 +318,118 @@ def run_c20(rep, tier, seed):
             break
     for (h, meta, n, errno, st, ln, tags) in runs[:2]:
         rep.sample({"script": run_lines_all[st:st + ln][:16], "answers": [x[:120] for x in ans[st:st + ln][:16]]})
+    server_stage(rep, tier, rng, root + "-net")
     rep.cov["rule"] = ("workloads of put (entries below and above the 8 KiB write buffer) / del / merge / reopen at max_file_size {60,300,9000,2^31}, sync none/always; after a fault-free baseline "
                        "that counts the physical open/write/fsync/unlink calls, one run per fault position (quick: up to 14 sampled positions per workload) with ENOSPC or EIO injected by the LD_PRELOAD "
                        "layer; every key is read after every op, and again after a final reopen; oracle: the op that issued the failing call returns an error, no other op fails, every key reads "
-                       "one of its allowed values (failed put/del: old or new), the directory reopens; non-trivial = distinct (workload, fault position) whose fault was reached")
+                       "one of its allowed values (failed put/del: old or new), the directory reopens; the same through the server: SET / GET / DEL (one or several keys) sent by a client with the n-th file-system "
+                       "call after it failing: a reply that acknowledges is true of the store, a refused command leaves old or new, other keys, later commands and a restarted server are unaffected; "
+                       "non-trivial = distinct (workload, fault position) whose fault was reached")
+
+
+def server_stage(rep, tier, rng, root):
+    """The same obligation seen by a client of the server: a command on whose behalf a file-system call failed is not
+    acknowledged as if it had worked. A reply that acknowledges (+OK, :n, a bulk value) has to be true of the store: after
+    `+OK` the key reads the value, after `:n` every key the DEL named is absent (and n of them were present), a GET answers
+    the value the key has; a command that fails answers with an error or the connection ends, and then each key it named
+    holds its old value or the one the command would have given it. Other keys and later commands are unaffected, also
+    after the server has been restarted on the same directory."""
+    from p_net import req_bytes
+    import shutil
+
+    def tok(v):
+        return "N" if v is None else "B:" + show_val(v)
+    big = b"Z" * 9000
+    ops = [("DEL", [b"a", b"b", b"c"]), ("DEL", [b"b"]), ("DEL", [b"zz", b"b", b"a"]), ("SET", b"b", b"9"), ("SET", b"e", big), ("SET", b"a", b""), ("GET", b"b")]
+    cases = []
+    for op in ops:
+        for n in range(0, 4):
+            for errno in ((28, 5) if tier != "quick" else (rng.choice((28, 5)),)):
+                for sync in (("none", "always") if tier != "quick" else (rng.choice(("none", "always")),)):
+                    cases.append((op, n, errno, sync))
+    lines, spans = [], []
+    for ci, (op, n, errno, sync) in enumerate(cases):
+        st = len(lines)
+        lines += [f"srv.start max=8 mfs=1000000 sync={sync} cache=0 policy=never", "c.open a"]
+        for k, v in ((b"a", b"1"), (b"b", b"2"), (b"c", b"3")):
+            lines += [f"c.send a {req_bytes(('SET', k, v)).hex()}", "c.read a 1 5000"]
+        i_f = len(lines) - st
+        lines += ["io.seq", f"io.fault {n} {errno}", f"c.send a {req_bytes(op).hex()}", "c.read a 1 5000", "io.seq", "io.fault -1000000000 0", "c.open b"]
+        i_g = len(lines) - st
+        for k in (b"a", b"b", b"c", b"e", b"zz"):
+            lines += [f"c.send b {req_bytes(('GET', k)).hex()}", "c.read b 1 5000"]
+        lines += [f"c.send b {req_bytes(('SET', b'd', b'4')).hex()}", "c.read b 1 5000", "srv.stop", "srv.start keep max=8 mfs=1000000 sync=none cache=0 policy=never", "c.open r"]
+        i_r = len(lines) - st
+        for k in (b"a", b"b", b"c", b"e", b"zz", b"d"):
+            lines += [f"c.send r {req_bytes(('GET', k)).hex()}", "c.read r 1 5000"]
+        lines += ["srv.stop"]
+        spans.append((st, len(lines) - st, i_f, i_g, i_r))
+    shutil.rmtree(root, ignore_errors=True)
+    try:
+        ans = run_harness(["net", "--root", root, "--hang-ms", "30000"], lines, preload=True, timeout=900)
+        died = None
+    except Died as d:
+        ans, died = d.answered, d
+    rep.cov["evaluations"] += len(ans)
+    nv = 0
+    for (op, n, errno, sync), (st, ln, i_f, i_g, i_r) in zip(cases, spans):
+        if st + ln > len(ans):
+            rep.violation("oracle", dict(what=f"server under an injected fault: harness died / hung ({died.why if died else '?'})", script=lines[st:st + ln], answers=ans[st:]))
+            break
+        a = ans[st:st + ln]
+        sc = lines[st:st + ln]
+        before = {b"a": b"1", b"b": b"2", b"c": b"3", b"e": None, b"zz": None}
+        reply = a[i_f + 3]
+        try:
+            reached = int(a[i_f + 4]) > int(a[i_f]) + n
+        except ValueError:
+            rep.violation("correspondence", dict(what="server under an injected fault: the recorder is not loaded", script=sc, answers=a))
+            break
+        rep.count("server_fault_cases")
+        rep.count("server_fault:" + op[0] + (":reached" if reached else ":not-reached") + (":acked" if reply[:2] in ("S:", "I:", "B:") or reply == "N" else ":refused"))
+        rep.nontrivial(["c20net", op[0], str(op[1:])[:40], n, errno, sync])
+        after = {k: a[i_g + 2 * j + 1] for j, k in enumerate((b"a", b"b", b"c", b"e", b"zz"))}
+        restarted = {k: a[i_r + 2 * j + 1] for j, k in enumerate((b"a", b"b", b"c", b"e", b"zz", b"d"))}
+        want = dict(before)
+        named = []
+        if op[0] == "SET":
+            want[op[1]] = op[2]
+            named = [op[1]]
+            ack = "S:4f4b"
+        elif op[0] == "DEL":
+            for k in op[1]:
+                want[k] = None
+            named = list(op[1])
+            ack = "I:%d" % len([k for k in set(op[1]) if before.get(k) is not None])
+        else:
+            ack = tok(before[op[1]])
+        bad = None
+        acked = reply[:2] in ("S:", "I:", "B:") or reply == "N"
+        if acked and reply != ack:
+            bad = (i_f + 3, ack + " (or an error / the connection closed)", reply, "the reply acknowledges something else than what the command does")
+        elif not acked and not reached:
+            bad = (i_f + 3, ack, reply, "no file-system call failed, yet the command was not answered")
+        for k in (b"a", b"b", b"c", b"e", b"zz"):
+            if bad:
+                break
+            allowed = {tok(want[k])} if acked else ({tok(before[k]), tok(want[k])} if k in named else {tok(before[k])})
+            if after[k] not in allowed:
+                bad = (i_g + 1, f"{k.decode()} reads " + " or ".join(sorted(allowed)), after[k],
+                       ("the command was acknowledged with `%s`" % reply if acked else "the command failed") + f", and afterwards key {k.decode()} does not read as it should")
+            elif restarted[k] not in allowed:
+                # (a key named by a refused command may hold the old value in the running server and the new one after the
+                #  restart, or the reverse: the command `may or may not have taken effect`, as at the store's own interface)
+                bad = (i_r + 1, f"{k.decode()} reads " + " or ".join(sorted(allowed)), restarted[k], f"after a restart of the server key {k.decode()} does not read as it should")
+        if not bad and a[i_g + 11] != "S:4f4b":
+            bad = (i_g + 11, "S:4f4b", a[i_g + 11], "a later SET on another connection is not served")
+        if not bad and restarted[b"d"] != "B:34":
+            bad = (i_r + 11, "B:34", restarted[b"d"], "the later SET is not there after a restart")
+        if bad:
+            nv += 1
+            if nv <= 3:
+                rep.violation("oracle", dict(what=f"server, {op[0]} {[x.decode() for x in (op[1] if op[0] == 'DEL' else [op[1]])]} with the call number {n} after it was sent failing with errno {errno} (sync={sync}): {bad[3]}",
+                                             script=sc, answers=[x[:120] for x in a], failing_line=bad[0], expected=bad[1], observed=bad[2]))
+    shutil.rmtree(root, ignore_errors=True)
 
 
 RUNNERS = {"C20": run_c20}
